@@ -304,10 +304,10 @@ theorem step_sim (cfg : Cfg K V) (hc : TotalCmp cfg.cmp) (hf : cfg.fixed = true)
     | all stop =>
       exact ⟨SL.zero, .kvs [], by simp [SL.step, SL.range, SL.zero], hz, by simp [OMap.step, toMap_zero, stopAfter], by omega⟩
     | rangeWithStart st stop =>
-      exact ⟨SL.zero, .kvs [], by simp [SL.step, SL.rangeFrom, SL.zero, hf], hz,
+      exact ⟨SL.zero, .kvs [], by simp [SL.step, SL.rangeFrom, SL.zero, hf, hl], hz,
         by simp [OMap.step, toMap_zero, stopAfter, OMap.from], by omega⟩
     | rangeWithRange st e stop =>
-      exact ⟨SL.zero, .kvs [], by simp [SL.step, SL.rangeFrom, SL.zero, hf], hz,
+      exact ⟨SL.zero, .kvs [], by simp [SL.step, SL.rangeFrom, SL.zero, hf, hl], hz,
         by simp [OMap.step, toMap_zero, stopAfter, OMap.between], by omega⟩
 
 /-- Run a sequence of calls on the model: final state and outputs (`none` = some call panicked). -/
